@@ -15,6 +15,9 @@ CONFIGS_QUICK = [
     ("ScreenGui", ["IgnoreGuiInset", "ScreenInsets"], 2),
     ("MeshPart", ["MeshId", "MeshContent", "TextureID"], 2),
     ("VerifUnknownClass", ["AlphaS", "BetaV", "GammaI"], 2),
+    # a legacy (migrating) spelling next to an unrelated property whose value has the migration's input type
+    ("ScreenGui", ["IgnoreGuiInset", "ClipToDeviceSafeArea", "ScreenInsets"], 2),
+    ("TextLabel", ["Font", "TextXAlignment", "FontFace"], 2),
 ]
 CONFIGS_THOROUGH = [
     ("Part", ["Color", "Color3uint8", "BrickColor", "brickColor", "Size", "size"], 2),
@@ -26,6 +29,10 @@ CONFIGS_THOROUGH = [
     ("MeshPart", ["MeshId", "MeshContent", "TextureID", "TextureContent"], 2),
     ("VerifUnknownClass", ["AlphaS", "BetaV", "GammaI"], 3),
 ]
+
+
+PROCESSES_QUICK = 3
+PROCESSES_THOROUGH = 6
 
 
 def col_cfg(name, cls, spellings, n, mig="sticky", alias="prefer_new_sorted", invs="AlwaysSucceeds OwnValues ColumnsExact ExplicitWins OrderFree PrintPop"):
@@ -79,10 +86,39 @@ def run(pid, tier, seed, replay=None):
                 case["ep"] = "pop:%s:%d:%d" % (cls, ci, i)
                 f.write(json.dumps(case) + "\n")
         trace = os.path.join(OUT, "C08_pop_%d_trace.ndjson" % ci)
-        rbxv(["bin-pop"], stdin_path=ops, stdout_path=trace)
+        # the property maps iterate in a per-process hash order: every population is executed in several
+        # processes.  Process 0 is judged in full; of the others only the events that differ from process 0's
+        # (none on a tree whose outcome is a function of the population) are judged as well.  Every event is
+        # told the write outcome of the first event of its group (same multiset of instances, any sibling
+        # order, any process): clause "orderfree" of BinaryFormatTrace (C08: success does not depend on order).
+        base = None
+        events = []
+        for proc in range(PROCESSES_QUICK if quick else PROCESSES_THOROUGH):
+            rbxv(["bin-pop"], stdin_path=ops, stdout_path=trace)
+            evs = [json.loads(x) for x in open(trace) if x.strip()]
+            for e in evs:
+                e["ep"] = "%s:p%d" % (e["ep"], proc)
+            if base is None:
+                base = evs
+                events += evs
+            else:
+                for a, b in zip(base, evs):
+                    if {k: v for k, v in a.items() if k != "ep"} != {k: v for k, v in b.items() if k != "ep"}:
+                        events.append(b)
+        first_write = {}
+        for e in events:
+            g = json.dumps(sorted(json.dumps(sorted(p_[0] for p_ in inst["props"])) for inst in e["before"]["inst"]))
+            w = e["modes"]["none"]["write"]
+            if g in first_write:
+                e["peer_write"] = first_write[g]
+            else:
+                first_write[g] = w
+        with open(trace, "w") as f:
+            for e in events:
+                f.write(json.dumps(e) + "\n")
         nn, fails = validate_cases("BinaryFormatTrace", trace, dict(env, DIALECT="code", CLAUSES="roundtrip"))
         total += nn
-        report_fails(rep, pid, fails, "code", C01_CLAUSES)
+        report_fails(rep, pid, fails, "code", C01_CLAUSES + ("orderfree",))
         if pops:
             samples.append({"class": cls, "population": json.loads(pops[len(pops) // 2])})
         for p in (ops, trace):
